@@ -6,16 +6,16 @@ CONSTANTS
   Ids <- Ids2
   ActIds <- Acts3
   RaisingActs = {"a2"}
-  NewTimeouts = {0, 2}
+  NewTimeouts = {0}
   NewNames = {""}
   DefNames = {}
-  WaitTimeouts = {1000000, 1}
+  WaitTimeouts = {1000000}
   Dto = 1000000
   Waiters = {"w1"}
-  Depth = 8
-  MaxTicks = 2
-  MaxClears = 2
-  MaxWaits = 2
+  Depth = 7
+  MaxTicks = 1
+  MaxClears = 1
+  MaxWaits = 1
   MaxSetNames = 0
 INVARIANT Emit
 INVARIANT GenInv
